@@ -16,7 +16,8 @@ THEOREMS = [
     "HgVerif.NodeSched.hasTag_iff", "HgVerif.NodeSched.tagTime_eq", "HgVerif.NodeSched.tagTime_default",
     "HgVerif.NodeSched.tagIsScheduledNow_iff",
     "HgVerif.NodeSched.armed_after_eval", "HgVerif.NodeSched.run_armed", "HgVerif.NodeSched.wake_not_late",
-    "HgVerif.NodeSched.armed_after_start",
+    "HgVerif.NodeSched.armed_after_start", "HgVerif.NodeSched.schedule_push_future", "HgVerif.NodeSched.evalPushes_future",
+    "HgVerif.NodeSched.postEval_push_future",
     "HgVerif.Tie.tie_nsStartedGuard", "HgVerif.Tie.tie_nsStartGuard", "HgVerif.Tie.tie_nsPushGuard",
     "HgVerif.Tie.tie_nsAdvanceGuard", "HgVerif.Tie.tie_slotConsumed", "HgVerif.Tie.tie_slotEarlier",
 ]
